@@ -5,6 +5,10 @@
 (* logs of every TUI scenario family: each `key` event takes the model's    *)
 (* Key(name) step in the current mode, each `frame` must show the model's   *)
 (* dialog mode, tab, item and column list.                                  *)
+(* It also checks what the user sees against the displayed state: every     *)
+(* hops-table row parsed from the captured screen (`trows`, tenths) shows   *)
+(* the counters and round-trip statistics of that hop in the displayed      *)
+(* State (`srows`, thousandths of a millisecond), rounded to one decimal.   *)
 (***************************************************************************)
 EXTENDS Settings, Json, IOUtils, TLC
 
@@ -24,11 +28,24 @@ TCfg == Consume("tcfg") /\ mode' = "main" /\ tab' = 0 /\ item' = None /\ cols' =
 TOther == l <= N /\ E.e \in {"upd", "end", "hang"} /\ l' = l + 1 /\ UNCHANGED <<svars, fresh>>
 TKey == Consume("key") /\ Key(E.name) /\ UNCHANGED fresh
 ModeOf(f) == IF f.show_help THEN "help" ELSE IF f.show_settings THEN "settings" ELSE "main"
+Abs(x) == IF x < 0 THEN -x ELSE x
+SetOf(q) == {q[i] : i \in 1..Len(q)}
+\* a value shown with one decimal (tenths) against the state's value in thousandths: half a unit of the last place
+Shown(scr, st) == IF st < 0 THEN scr = -1 ELSE Abs(scr * 100 - st) <= 51
+RowOK(r, h) ==
+    /\ r.snd = h.sent /\ r.recv = h.recv
+    /\ IF h.sent = 0 THEN r.loss = 0 ELSE 2 * Abs(r.loss * h.sent - 1000 * (h.sent - h.recv)) <= h.sent + 2
+    /\ IF h.recv > 0 THEN Shown(r.last, h.last) /\ Shown(r.avg, h.avg) /\ Shown(r.best, h.best) /\ Shown(r.wrst, h.wrst)
+       ELSE r.last = -1 /\ r.avg = -1 /\ r.best = -1 /\ r.wrst = -1
+    /\ IF h.recv > 1 THEN Shown(r.sd, h.sd) ELSE r.sd = -1
+ScreenShowsState(f) == \A r \in SetOf(f.trows) : \E h \in SetOf(f.srows) : h.ttl = r.ttl /\ RowOK(r, h)
+
 \* the column list of a run is read from its first frame, afterwards it must equal the model's
 TFrame == /\ Consume("frame")
           /\ IF fresh THEN cols' = E.cols ELSE cols' = cols /\ cols = E.cols
           /\ fresh' = FALSE
           /\ mode = ModeOf(E) /\ tab = E.tab /\ item = E.item
+          /\ ScreenShowsState(E)
           /\ UNCHANGED <<mode, tab, item>>
 TNext == TCfg \/ TOther \/ TKey \/ TFrame
 TSpec == TInit /\ [][TNext]_tvars
